@@ -237,7 +237,8 @@ class MLAllowlist(Analysis):
 
 class FicklingMLUnpickler(pickle.Unpickler):
     def __init__(self, *args, also_allow: List[str] = None, **kwargs):
-        self.allowlist = dict(ML_ALLOWLIST)
+        # copy each module's table too: the additions below must not leak into ML_ALLOWLIST
+        self.allowlist = {module: dict(names) for module, names in ML_ALLOWLIST.items()}
         super().__init__(*args, **kwargs)
         # Add additional allowed imports
         if also_allow:
